@@ -785,7 +785,12 @@ func genMatrix(t *rapid.T) (any, []any) {
 func genArrayForOrder(t *rapid.T) (any, []any) {
 	n := rapid.IntRange(0, 6).Draw(t, "n")
 	arr := make([]any, n)
+	edge := rapid.IntRange(0, 3).Draw(t, "edges") == 0
 	for i := range arr {
+		if edge && rapid.Bool().Draw(t, "edge") {
+			arr[i] = univ.Copy(rapid.SampledFrom(edgeNumbers).Draw(t, "edgeval"))
+			continue
+		}
 		arr[i] = gen.Value(gen.Opt{Reps: true, Special: true, MaxDepth: 2, MaxWidth: 2, SmallInts: true}).Draw(t, "e")
 	}
 	return arr, nil
